@@ -236,6 +236,7 @@ pub fn main(scenarios: &[Scenario]) -> ! {
         }
     }
     start_watchdog(60);
+    warm_up(&mine);
     let mut out = WorkerOut {
         property: args.prop.clone(),
         ..Default::default()
@@ -386,6 +387,17 @@ pub fn main(scenarios: &[Scenario]) -> ! {
     std::process::exit(0)
 }
 
+/// Libraries under test initialise process-wide state lazily (hasher seeds from the entropy source, probe
+/// caches, provider tables): whatever a process's first runs would set up is set up here instead, by the
+/// same fixed runs in every process, so that no run of a batch depends on its position in its worker.
+fn warm_up(scenarios: &[&Scenario]) {
+    for s in scenarios {
+        for w in 0..3u64 {
+            let _ = execute(&s.run, Decider::generate(0x5741_524d_5550 + w), false);
+        }
+    }
+}
+
 fn replay_main(scenarios: &[Scenario], path: &PathBuf, args: &Args) -> ! {
     let text = std::fs::read_to_string(path).unwrap_or_else(|e| {
         eprintln!("cannot read {}: {e}", path.display());
@@ -402,6 +414,7 @@ fn replay_main(scenarios: &[Scenario], path: &PathBuf, args: &Args) -> ! {
         eprintln!("no scenario {}/{} in this binary", rf.property, rf.scenario);
         std::process::exit(2)
     };
+    warm_up(&[scen]);
     if rf.from_seed {
         // the recorded run killed its process: regenerate it from the seed; dying again is the reproduction
         start_watchdog(60);
